@@ -58,6 +58,7 @@ CONSTANTS
   Ops = %(ops)d
   MaxDepth = %(depth)d
   LitSet = "%(lits)s"
+  OpSet = "%(opset)s"
   AllowFuncPow = %(funcpow)s
   AnyPos = %(anypos)s
   Emit = %(emit)s
@@ -76,8 +77,8 @@ def tl_cfg(nt=0, fuelt=2, fuelp=3, depth=2, ops=2, words="small", preset="none",
                          dup=B(dup), numdup=B(numdup), anypos=B(anypos), emit=B(emit))
 
 
-def ex_cfg(fuel=2, ops=2, depth=4, lits="small", funcpow=False, anypos=False, emit=True):
-    return EX_CFG % dict(fuel=fuel, ops=ops, depth=depth, lits=lits, funcpow=B(funcpow), anypos=B(anypos), emit=B(emit))
+def ex_cfg(fuel=2, ops=2, depth=4, lits="small", opset="all", funcpow=False, anypos=False, emit=True):
+    return EX_CFG % dict(fuel=fuel, ops=ops, depth=depth, lits=lits, opset=opset, funcpow=B(funcpow), anypos=B(anypos), emit=B(emit))
 
 
 # ----------------------------------------------------------------------------- plans
@@ -92,7 +93,11 @@ def plans(tier):
             ("tl", "numdup", dict(nt=0, fuelp=5, ops=1, depth=1, words="tiny", numdup=True), None, None),
             ("tl", "sim", dict(nt=2, fuelt=4, fuelp=5, depth=4, ops=6, words="full", anypos=True), 16000, 90),
             ("ex", "ebfs", dict(fuel=2, ops=2, depth=4, lits="small", funcpow=True), None, None),
-            ("ex", "esim", dict(fuel=6, ops=9, depth=5, lits="full", anypos=True), 32000, 40),
+            # every chain a op1 b op2 c (both tree shapes, ALL operator pairs incl. equal ones) over a palette on which
+            # the two groupings differ; then the same with a prefix operator anywhere, over the core operators
+            ("ex", "chain", dict(fuel=3, ops=2, depth=4, lits="chain", funcpow=True), None, None),
+            ("ex", "chainun", dict(fuel=3, ops=3, depth=4, lits="two", opset="core", funcpow=True), None, None),
+            ("ex", "esim", dict(fuel=6, ops=9, depth=5, lits="full", anypos=True, funcpow=True), 32000, 40),
         ]
     return [
         ("tl", "echo", dict(nt=1, preset="echo", fuelp=3, ops=2, depth=2, words="small"), None, None),
@@ -103,8 +108,11 @@ def plans(tier):
         ("tl", "sim2", dict(nt=2, fuelt=4, fuelp=5, depth=4, ops=6, words="full", anypos=True), 160000, 90),
         ("tl", "sim3", dict(nt=3, fuelt=3, fuelp=6, depth=4, ops=7, words="full", anypos=True), 120000, 120),
         ("ex", "ebfs", dict(fuel=2, ops=3, depth=4, lits="small", funcpow=True), None, None),
-        ("ex", "ebfs3", dict(fuel=3, ops=2, depth=4, lits="small"), None, None),
-        ("ex", "esim", dict(fuel=6, ops=9, depth=5, lits="full", anypos=True), 400000, 40),
+        ("ex", "ebfs3", dict(fuel=3, ops=2, depth=4, lits="small", funcpow=True), None, None),
+        ("ex", "chain", dict(fuel=3, ops=2, depth=4, lits="chain", funcpow=True), None, None),
+        ("ex", "chainun", dict(fuel=3, ops=3, depth=4, lits="two", opset="core", funcpow=True), None, None),
+        ("ex", "chain4", dict(fuel=4, ops=3, depth=4, lits="two", opset="core", funcpow=True), None, None),
+        ("ex", "esim", dict(fuel=6, ops=9, depth=5, lits="full", anypos=True, funcpow=True), 400000, 40),
     ]
 
 
